@@ -202,3 +202,78 @@ Proof.
   - intros r Hr. unfold si_bounds, div_point. nia.
   - unfold si_bounds, div_point. rewrite zrange_length. f_equal. nia.
 Qed.
+
+(* load balance of split_idx: rank r owns N/P indices, plus one if r < N mod P;
+   so two ranks never differ by more than one index and no rank exceeds ceil(N/P). *)
+Lemma split_idx_balanced (N P r : Z) :
+  0 <= N -> 1 <= P -> 0 <= r < P ->
+  Z.of_nat (length (si_range (split_idx N r P))) = N / P + (if r <? N mod P then 1 else 0).
+Proof.
+  intros HN HP Hr. rewrite split_idx_spec by assumption.
+  assert (He : 0 <= N mod P < P) by (apply Z.mod_pos_bound; lia).
+  assert (Hq : 0 <= N / P) by (apply Z.div_pos; lia).
+  set (q := N / P) in *. set (e := N mod P) in *.
+  assert (Hd : div_point q e (r + 1) - div_point q e r = q + (if r <? e then 1 else 0)).
+  { unfold div_point. destruct (Z.ltb_spec r e); lia. }
+  destruct (Z.geb_spec (div_point q e r) (div_point q e (r + 1))) as [Hge|Hlt].
+  - cbn [si_range length]. destruct (Z.ltb_spec r e); lia.
+  - cbn [si_range]. unfold zinterval. rewrite map_length, seq_length. lia.
+Qed.
+
+Corollary split_idx_balance_pair (N P r s : Z) :
+  0 <= N -> 1 <= P -> 0 <= r < P -> 0 <= s < P ->
+  Z.abs (Z.of_nat (length (si_range (split_idx N r P))) - Z.of_nat (length (si_range (split_idx N s P)))) <= 1.
+Proof.
+  intros HN HP Hr Hs. rewrite !split_idx_balanced by assumption.
+  destruct (r <? N mod P), (s <? N mod P); lia.
+Qed.
+
+(* every index is owned by a rank, and by no second rank *)
+Lemma si_range_spec (N P r i : Z) :
+  0 <= N -> 1 <= P -> 0 <= r < P ->
+  In i (si_range (split_idx N r P)) <->
+  div_point (N / P) (N mod P) r <= i < div_point (N / P) (N mod P) (r + 1).
+Proof.
+  intros HN HP Hr. rewrite split_idx_spec by assumption.
+  set (q := N / P). set (e := N mod P).
+  destruct (Z.geb_spec (div_point q e r) (div_point q e (r + 1))) as [Hge|Hlt].
+  - cbn [si_range]. split; [intros []|lia].
+  - cbn [si_range]. unfold zinterval. rewrite in_map_iff. split.
+    + intros [k [Hk Hin]]. apply in_seq in Hin. lia.
+    + intros Hi. exists (Z.to_nat (i - div_point q e r)). split; [lia|]. apply in_seq. lia.
+Qed.
+
+Theorem split_idx_unique_owner (N P i : Z) :
+  0 <= N -> 1 <= P -> 0 <= i < N ->
+  exists r, 0 <= r < P /\ In i (si_range (split_idx N r P)) /\
+    forall s, 0 <= s < P -> In i (si_range (split_idx N s P)) -> s = r.
+Proof.
+  intros HN HP Hi.
+  assert (He : 0 <= N mod P < P) by (apply Z.mod_pos_bound; lia).
+  assert (Hq : 0 <= N / P) by (apply Z.div_pos; lia).
+  assert (HNd : N = P * (N / P) + N mod P) by (apply Z.div_mod; lia).
+  set (q := N / P) in *. set (e := N mod P) in *.
+  assert (Hmono : forall a b, 0 <= a -> a <= b -> div_point q e a <= div_point q e b).
+  { intros a b Ha Hab. unfold div_point. nia. }
+  (* owner: the rank r with dp r <= i < dp (r+1) *)
+  assert (Hex : exists r, 0 <= r < P /\ div_point q e r <= i < div_point q e (r + 1)).
+  { destruct (Z.ltb_spec i (e * (q + 1))) as [Hlo|Hhi].
+    - exists (i / (q + 1)).
+      assert (Hr0 : 0 <= i / (q + 1)) by (apply Z.div_pos; lia).
+      assert (Hdm : i = (q + 1) * (i / (q + 1)) + i mod (q + 1)) by (apply Z.div_mod; lia).
+      assert (Hm : 0 <= i mod (q + 1) < q + 1) by (apply Z.mod_pos_bound; lia).
+      assert (Hre : i / (q + 1) < e) by nia.
+      unfold div_point. split; [lia|]. split; nia.
+    - assert (Hq1 : 1 <= q) by nia.
+      set (j := i - e * (q + 1)) in *.
+      assert (Hdm : j = q * (j / q) + j mod q) by (apply Z.div_mod; lia).
+      assert (Hm : 0 <= j mod q < q) by (apply Z.mod_pos_bound; lia).
+      assert (Hr0 : 0 <= j / q) by (apply Z.div_pos; lia).
+      exists (e + j / q). unfold div_point. split; [nia|]. split; nia. }
+  destruct Hex as [r [Hr Hin]]. exists r. split; [exact Hr|]. split.
+  - apply si_range_spec; assumption.
+  - intros s Hs Hins. apply si_range_spec in Hins; try assumption. fold q e in Hins.
+    destruct (Z.lt_trichotomy s r) as [Hlt|[Heq|Hgt]]; [|exact Heq|].
+    + pose proof (Hmono (s + 1) r ltac:(lia) ltac:(lia)). lia.
+    + pose proof (Hmono (r + 1) s ltac:(lia) ltac:(lia)). lia.
+Qed.
